@@ -63,6 +63,14 @@ pub fn assert_collections_equal<T: Debug + PartialEq>(actual: &[T], expected: &[
 pub fn assert_collections_unordered_equal<T: Debug + Eq + Hash>(actual: &[T], expected: &[T]) {
     let actual_set: HashSet<_> = actual.iter().collect();
     let expected_set: HashSet<_> = expected.iter().collect();
+    let mut actual_counts: HashMap<&T, usize> = HashMap::new();
+    for a in actual {
+        *actual_counts.entry(a).or_insert(0) += 1;
+    }
+    let mut expected_counts: HashMap<&T, usize> = HashMap::new();
+    for e in expected {
+        *expected_counts.entry(e).or_insert(0) += 1;
+    }
 
     assert_eq!(
         actual.len(),
@@ -72,7 +80,7 @@ pub fn assert_collections_unordered_equal<T: Debug + Eq + Hash>(actual: &[T], ex
         actual.len()
     );
 
-    if actual_set != expected_set {
+    if actual_counts != expected_counts {
         let missing: Vec<_> = expected_set.difference(&actual_set).collect();
         let extra: Vec<_> = actual_set.difference(&expected_set).collect();
 
@@ -165,11 +173,17 @@ where
             "Key mismatch at index {i}:\n  Expected: {ek:?}\n  Actual: {ak:?}"
         );
 
-        let av_set: HashSet<_> = av.iter().collect();
-        let ev_set: HashSet<_> = ev.iter().collect();
+        let mut av_counts: HashMap<&V, usize> = HashMap::new();
+        for v in av {
+            *av_counts.entry(v).or_insert(0) += 1;
+        }
+        let mut ev_counts: HashMap<&V, usize> = HashMap::new();
+        for v in ev {
+            *ev_counts.entry(v).or_insert(0) += 1;
+        }
 
         assert_eq!(
-            av_set, ev_set,
+            av_counts, ev_counts,
             "Value mismatch for key {ak:?} at index {i}:\n  Expected values: {ev:?}\n  Actual values: {av:?}"
         );
     }
